@@ -4,7 +4,7 @@ import session_common as SC
 from framework import Task
 
 
-def sched_tasks(tier, checks, prefix, msg_prefix, kinds, race=False, nobj=2, digest=False, extra_defs='', in_cs=False, cfgs=None):
+def sched_tasks(tier, checks, prefix, msg_prefix, kinds, race=False, nobj=2, digest=False, extra_defs='', in_cs=False, cfgs=None, child_first=False):
     cfgs = cfgs or ([(0, 40, 0)] if tier == 'quick' else [(0, 40, 0), (6, 64, 1), (0, 7, 0)])
     width = (48 if tier == 'quick' else 32) * (2 if in_cs else 1)
     nranges = 12 if tier == 'quick' else 24
@@ -22,11 +22,12 @@ def sched_tasks(tier, checks, prefix, msg_prefix, kinds, race=False, nobj=2, dig
                 out.append(Task(tid, defs + SC.SRC, 'h_session', None,
                                 opts=dict(validate=False, extra=['zlib_stub.cpp'], limit_is_hang=True, max_steps=12000000, max_wall=1500,
                                           enum_limit=400, msg_prefix=msg_prefix, preempt_bound=1, preempt_range=(lo, hi),
-                                          race_detect=race, digest_tags=('file',) if digest else (), preempt_in_cs=in_cs),
+                                          race_detect=race, digest_tags=('file',) if digest else (), preempt_in_cs=in_cs, child_first=child_first),
                                 desc='write+read session (level %d, container %d, restore %d, %d objects%s) under every schedule '
                                      'that preempts the running thread once at a synchronisation point numbered %d..%s '
-                                     '(mutex release / thread start) in favour of each other runnable thread' % (
-                                         lvl, cs, rp, nobj, '' if ec < 0 else ', early close', lo, hi if r < nranges else 'end'),
+                                     '(mutex release / thread start) in favour of each other runnable thread%s' % (
+                                         lvl, cs, rp, nobj, '' if ec < 0 else ', early close', lo, hi if r < nranges else 'end',
+                                         '; base schedule: a new thread runs before its creator continues' if child_first else ''),
                                 reach=('h_session:end',), bounds='preemption bound 1; %d objects' % nobj, kinds=kinds))
     return out
 
